@@ -1,4 +1,5 @@
 #![allow(dead_code)]
+mod cachevec;
 mod dev;
 mod fs;
 mod mkfs;
@@ -144,6 +145,13 @@ fn main() {
             // vh crc <out.ndjson> <tier> <seed>
             let mut out = std::io::BufWriter::new(std::fs::File::create(&args[2]).expect("create out"));
             let r = pure::crc_vectors(&mut out, &args[3], args[4].parse().unwrap());
+            out.flush().unwrap();
+            println!("{}", r);
+        }
+        "cache" => {
+            // vh cache <out.ndjson> <tier> <seed>
+            let mut out = std::io::BufWriter::new(std::fs::File::create(&args[2]).expect("create out"));
+            let r = cachevec::cache_vectors(&mut out, &args[3], args[4].parse().unwrap());
             out.flush().unwrap();
             println!("{}", r);
         }
